@@ -104,7 +104,11 @@ func c12Exact(c *fw.Ctx, j *proto.Job, res *proto.Result) {
 			// comments and blanks that follow it into the lexeme – nothing else
 			ok := lx.Begin == t.Begin && lx.End >= t.End && lx.End < len(content)
 			if ok && lx.End > t.End {
-				if tr, _ := ref.TriviaOnly(content[t.End+1 : lx.End+1]); !tr {
+				// the excess is made of the lines that follow (it starts with the line end), never of blanks on the body's last line
+				// (schema bodies are measured by jsight-schema-core, which also takes blanks that are followed by comments)
+				if c0 := content[t.End+1]; t.Type != "schema" && (c0 == ' ' || c0 == '\t') {
+					ok = false
+				} else if tr, _ := ref.TriviaOnly(content[t.End+1 : lx.End+1]); !tr {
 					ok = false
 				}
 			}
